@@ -1059,7 +1059,7 @@ pub fn main(args: &Args) {
         stored = read_cases(Path::new(d));
     }
     let tcp_stream = tcp::Tcp::new(&rt); // TCP transport stream (cases tagged 9000): c05_tcp.rs
-    let c06 = c06x::Streams::new(); // C06 extension streams (cases tagged 9600..9602): c06x.rs
+    let c06 = c06x::Streams::new(cfg!(feature = "quic") && args.u64("sock-quic", 0) == 1); // C06 extension streams (cases tagged 9600..9604): c06x.rs
     for c in &stored {
         let (c2, t) = catch_unwind(AssertUnwindSafe(|| {
             if c06x::is_tagged(c) {
